@@ -39,6 +39,17 @@ pub fn p_c17_unproj_range(x: f64, y: f64) {
   assert!(lon >= -2.0000000000000004 * REF_PI && lon <= 2.0000000000000004 * REF_PI, "C17: unproj longitude out of [-2pi, 2pi]");
   let neg = x.to_bits() >> 63 == 1;
   assert!(if neg { lon <= 0.0 } else { lon >= 0.0 }, "C17: unproj longitude does not have the sign of x");
+  // inverse of proj, structural part: the longitude lies in the quarter [k pi/2, (k+1) pi/2] of the facet column of x and on the
+  // same side of the column's central meridian as x (exact: every step from x to lon is monotone under rounding)
+  let xa = f64::from_bits(x.to_bits() & 0x7FFF_FFFF_FFFF_FFFF);
+  let la = f64::from_bits(lon.to_bits() & 0x7FFF_FFFF_FFFF_FFFF);
+  if xa < 8.0 {
+    let off = ((xa as u8) | 1) as f64;
+    let c = 0.25 * REF_PI;
+    assert!(la >= (off - 1.0) * c && la <= (off + 1.0) * c, "C17: unproj longitude outside the quarter of the facet column of x");
+    assert!(!(xa < off) || la <= off * c, "C17: unproj longitude on the wrong side of the central meridian of the column (x west of it)");
+    assert!(!(xa > off) || la >= off * c, "C17: unproj longitude on the wrong side of the central meridian of the column (x east of it)");
+  }
 }
 
 /// base_cell_from_proj_coo = the base cell whose closed diamond contains the point (either one on a shared border).
